@@ -36,7 +36,10 @@ Record mono := Mono { mc : Qc; mx : nat; mk : nat; mr : nat }.
 Definition poly := list mono.
 Record cls := Cls { cf : poly; cg : option poly; crdef : Qc }.
 Record node := Node { ncls : nat; nk : Qc }.
-Record edge := Edge { esrc : nat; etgt : nat; ew : Qc; esv : bool }.
+(* an edge may be written without a 'weight' entry (ewo = None): add_edge / _group_edges (fix D46:
+   edge_dict.setdefault('weight', 1.)) then use the default weight 1 *)
+Record edge := Edge { esrc : nat; etgt : nat; ewo : option Qc; esv : bool }.
+Definition ew (e : edge) : Qc := match ewo e with Some w => w | None => 1 end.
 Record circuit := Circ { ccls : list cls; cnodes : list node; cedges : list edge }.
 
 Definition dcls : cls := Cls [] None 0.
@@ -126,6 +129,22 @@ Definition group_step (ix : nat -> nat * nat) (gs0 : list grp) (e : edge) : list
   add_group gs0 (ekey ix e) (ew e) (snd (ix (esrc e))) (snd (ix (etgt e))).
 
 Definition group_edges (ix : nat -> nat * nat) (es : list edge) : list grp := fold_left (group_step ix) es [].
+
+(* the same fold WITHOUT the setdefault of fix D46 (not used by Impl; it is what the alignment theorem is about):
+   every key of the edge dict is extended by [val]*edge_len, so an edge without a 'weight' entry extends the index
+   lists only.  (Faithful for a weightless edge that FOLLOWS a weighted one in its group — the silent truncation of
+   D46; a group OPENED by a weightless edge has no weight list at all in the code.) *)
+Definition olist (o : option Qc) : list Qc := match o with Some w => [w] | None => [] end.
+Fixpoint add_group_raw (gs0 : list grp) (key : gkey) (w : option Qc) (si ti : nat) : list grp :=
+  match gs0 with
+  | [] => [Grp key (olist w) [si] [ti]]
+  | g :: rest => if gkey_eqb (gk g) key then Grp (gk g) (gw g ++ olist w) (gs g ++ [si]) (gt g ++ [ti]) :: rest
+                 else g :: add_group_raw rest key w si ti
+  end.
+Definition group_step_raw (ix : nat -> nat * nat) (gs0 : list grp) (e : edge) : list grp :=
+  add_group_raw gs0 (ekey ix e) (ewo e) (snd (ix (esrc e))) (snd (ix (etgt e))).
+Definition group_edges_raw (ix : nat -> nat * nat) (es : list edge) : list grp := fold_left (group_step_raw ix) es [].
+Definition set_default (e : edge) : edge := Edge (esrc e) (etgt e) (Some (ew e)) (esv e).
 
 (* 3. _collect_from_edges for one target vector node: per source vector node (in order of its first group)
       the source variable of the FIRST group and the concatenated lists *)
